@@ -29,10 +29,11 @@ import (
 //     of an earlier pool can be mistaken for one of this stage);
 //   - no handle is handed to two concurrently executing iterations.
 type fileStage struct {
-	Users    int // 0 = constant-rate stage
-	Expected int
-	DurMs    int
-	TailMs   int // how long the first `Expected` bodies of the stage keep running after the barrier opened
+	UsersOmitted bool // users stage without `concurrency`
+	Users        int  // 0 = constant-rate stage
+	Expected     int
+	DurMs        int
+	TailMs       int // how long the first `Expected` bodies of the stage keep running after the barrier opened
 }
 
 type stageProbe struct {
@@ -49,6 +50,12 @@ func TestProp_FileStages(t *testing.T) {
 	rapid.Check(t, func(rt *rapid.T) {
 		conc := rapid.OneOf(rapid.IntRange(2, 6), rapid.IntRange(2, 24)).Draw(rt, "limitsConcurrency")
 		n := rapid.IntRange(2, 3).Draw(rt, "stages")
+		// half of the files carry a default section with a concurrency of its own: it is what a users
+		// stage without `concurrency` gets - never what a rate stage runs with (that is the limit)
+		defConc := 0
+		if rapid.Bool().Draw(rt, "defaultSection") {
+			defConc = rapid.IntRange(1, 2*conc).Draw(rt, "defaultConcurrency")
+		}
 		stages := make([]fileStage, n)
 		var b strings.Builder
 		for i := range stages {
@@ -58,13 +65,27 @@ func TestProp_FileStages(t *testing.T) {
 			if rapid.IntRange(0, 2).Draw(rt, "usersStage") == 0 {
 				st.Users = rapid.IntRange(1, 2*conc).Draw(rt, "users")
 				st.Expected = st.Users
+				if rapid.IntRange(0, 2).Draw(rt, "usersFromDefault") == 0 {
+					st.UsersOmitted = true // takes default.concurrency, or limits.concurrency without a default
+					st.Expected = conc
+					if defConc > 0 {
+						st.Expected = defConc
+					}
+					st.Users = st.Expected
+				}
 			}
 			// bodies that end with the barrier, shortly after, or only after the next stage has begun
 			st.TailMs = rapid.SampledFrom([]int{0, 5, st.DurMs + 60}).Draw(rt, "tailMs")
 		}
-		fmt.Fprintf(&b, "scenario: %s\nlimits:\n  max-duration: 8s\n  concurrency: %d\n  max-iterations: 0\n  ignore-dropped: true\nstages:\n", vlib.ScenarioName, conc)
+		fmt.Fprintf(&b, "scenario: %s\nlimits:\n  max-duration: 8s\n  concurrency: %d\n  max-iterations: 0\n  ignore-dropped: true\n", vlib.ScenarioName, conc)
+		if defConc > 0 {
+			fmt.Fprintf(&b, "default:\n  concurrency: %d\n", defConc)
+		}
+		b.WriteString("stages:\n")
 		for _, st := range stages {
-			if st.Users > 0 {
+			if st.UsersOmitted {
+				fmt.Fprintf(&b, "- duration: %dms\n  mode: users\n", st.DurMs)
+			} else if st.Users > 0 {
 				fmt.Fprintf(&b, "- duration: %dms\n  mode: users\n  concurrency: %d\n", st.DurMs, st.Users)
 			} else {
 				extra := rapid.IntRange(0, conc).Draw(rt, "extraRequests")
@@ -191,6 +212,9 @@ func TestProp_FileStages(t *testing.T) {
 		}
 		if usersThenRate {
 			cls = append(cls, "users-stage-then-rate-stage")
+		}
+		if defConc > 0 && defConc != conc {
+			cls = append(cls, "default-concurrency-differs-from-limit")
 		}
 		if viaCLI {
 			cls = append(cls, "through-the-cli")
